@@ -178,6 +178,10 @@ def check(ax, case, rec):
             it.update(vals.tolist())
             rec.label("updated-values")
         r = np.asarray(it.assemble.vector(fc).toarray()).ravel()
+        # a load item is assembled in every Newton iteration: repeated assembly returns the same vector
+        for rep in range(2):
+            r_again = np.asarray(it.assemble.vector(fc).toarray()).ravel()
+            rec.close("repeated-assembly-same-vector", float(np.abs(r_again - r).max()) / max(float(np.abs(r).max()), 1e-300), 0.0, {"call": rep + 2})
         n0 = fc.fields[0].values.size
         f = r[:n0].reshape(-1, fc.fields[0].dim)
         V = volume_of(region, fc.fields[0] if axi else None)
@@ -335,6 +339,11 @@ def check(ax, case, rec):
         c01.set_state(fc, X, c, dim)
         npts = len(X)
         pts = rng.choice(np.arange(1, npts), size=min(4, npts - 1), replace=False)
+        if c["lseed"] % 3 == 0:
+            # the reference (centre) point is an ordinary mesh point that is also in the list of coupled points, e.g. a
+            # whole face selected by a mask with one of its points as the reference
+            pts = np.append(pts[:-1], 0)
+            rec.label("centre-point-among-the-points")
         skip = tuple(c["skip"][:dim]) if not all(c["skip"][:dim]) else (False,) * dim
         skip = skip + (False,) * (3 - len(skip))
         if ax == "mpc":
